@@ -8,7 +8,8 @@ VERIF_OUT="$OUT" "$HERE/check" C18 quick > /dev/null 2>&1 || true   # make sure 
 BIN="$HERE/sim/target/release/hootsim"
 export VERIF_DIR="$HERE" VERIF_OUT="$OUT" VERIF_SCALE="$SCALE"
 START=$(date +%s)
-IDS=$("$BIN" --list | cut -d' ' -f1)
+IDS=${VERIF_IDS:-$("$BIN" --list | cut -d' ' -f1)}   # VERIF_IDS="C09 C14": only these (result file gets the ids as a suffix)
+SUFFIX=${VERIF_IDS:+-$(echo $VERIF_IDS | tr ' ' '+')}
 : > "$OUT/log.txt"
 for s in $(seq 1 $SEEDS); do
   seed=$((s*104729+7))
@@ -23,7 +24,7 @@ END=$(date +%s)
   echo "total simulated runs: $(grep -o 'runs=[0-9]*' "$OUT/log.txt" | cut -d= -f2 | paste -sd+ | bc)"
   echo "VIOLATION lines: $(grep -c VIOLATION "$OUT/log.txt")   harness errors: $(grep -c HARNESS "$OUT/log.txt")   foreign-abort warnings: $(grep -c WARNING "$OUT/log.txt")"
   grep -E "VIOLATION|HARNESS|WARNING" "$OUT/log.txt" | head -20
-} > "$HERE/evidence/soak-$TIER.txt"
-cat "$HERE/evidence/soak-$TIER.txt"
+} > "$HERE/evidence/soak-$TIER$SUFFIX.txt"
+cat "$HERE/evidence/soak-$TIER$SUFFIX.txt"
 cp "$OUT"/replays/* "$HERE/replays/" 2>/dev/null
 rm -rf "$OUT"
